@@ -17,7 +17,7 @@ from .. import core, tplgen
 from .. import render_common as rc
 
 PROP = "C05"
-THEOREMS = ['nearest_provider_shadows', 'provider_leaves_others', 'provided_not_variables', 'inject_key_survives_isolation', 'provider_survives_unregister', 'provider_survives_component_finish', 'enter_provider_alive', "provided_not_variables_pipeline", "payload_invisible_without_inject", "provider_consumer_end_to_end_django", "siblings_under_a_provider_both_see_the_data"]
+THEOREMS = ['nearest_provider_shadows', 'provider_leaves_others', 'provided_not_variables', 'inject_key_survives_isolation', 'provider_survives_unregister', 'provider_survives_component_finish', 'enter_provider_alive', "provided_not_variables_pipeline", "payload_invisible_without_inject", "provider_consumer_end_to_end_django", "siblings_under_a_provider_both_see_the_data", "provider_consumer_end_to_end_isolated"]
 
 PROFILE = dict(w_provide=4, w_inject=0.7, p_inject_default=0.6, w_comp=6, w_slot=3, p_only=0.1, depth=3,
                w_for=1.5, p_named_fill=0.5)
